@@ -103,7 +103,8 @@ def main():
                 return
             run_one(k, sd, props, tier, seeds)
 
-    ts = [threading.Thread(target=worker, args=(k,)) for k in range(slots)]
+    base = int(os.environ.get("SLOT_BASE", "0"))
+    ts = [threading.Thread(target=worker, args=(base + k,)) for k in range(slots)]
     for t in ts:
         t.start()
     for t in ts:
